@@ -2,6 +2,7 @@ package harness
 
 import (
 	"errors"
+	"syscall"
 	"fmt"
 	"io"
 	"os"
@@ -13,6 +14,7 @@ import (
 
 	"github.com/f1bonacc1/process-compose/src/admitter"
 	"github.com/f1bonacc1/process-compose/src/app"
+	pccmd "github.com/f1bonacc1/process-compose/src/cmd"
 	"github.com/f1bonacc1/process-compose/src/health"
 	"github.com/f1bonacc1/process-compose/src/loader"
 	"github.com/f1bonacc1/process-compose/src/pclog"
@@ -23,6 +25,7 @@ import (
 	"verifrt/simlog"
 	"verifrt/simos"
 	"verifrt/simrand"
+	"verifrt/simsignal"
 	"verifrt/simsync"
 )
 
@@ -362,6 +365,7 @@ func RunScenario(t *testing.T, sc *Scenario, tape []int32) *RunResult {
 	simos.W = world
 	res.World = world
 	simrand.Reset()
+	simsignal.Reset()
 	simsync.HookFn = func(kind, a, b string) {
 		simlog.Add(simlog.Event{Kind: "sut." + kind, Subj: a, A: b})
 	}
@@ -439,7 +443,12 @@ func RunScenario(t *testing.T, sc *Scenario, tape []int32) *RunResult {
 		var runDone simsync.Event
 		simsync.GoNamed("Run", func() {
 			simlog.Add(simlog.Event{Kind: "run.call"})
-			err := runner.Run()
+			var err error
+			if sc.ViaCmd {
+				err = pccmd.VerifRunHeadless(runner)
+			} else {
+				err = runner.Run()
+			}
 			code := 0
 			var ee *app.ExitError
 			if errors.As(err, &ee) {
@@ -583,7 +592,7 @@ func (rc *runCtx) runClient(c *Client) {
 			simsync.Yield(simsync.SiteHarness)
 		}
 		desc := op.Op + "(" + op.Arg
-		if op.Op == "scale" || op.Op == "log" || op.Op == "update" || op.Op == "audit" {
+		if op.Op == "scale" || op.Op == "log" || op.Op == "update" || op.Op == "audit" || op.Op == "signal" {
 			desc += fmt.Sprintf(",%d", op.N)
 		}
 		if len(op.Args) > 0 {
@@ -613,6 +622,12 @@ func (rc *runCtx) doOp(op *Op) (any, error) {
 			simlog.Add(simlog.Event{Kind: "api.scaled", Subj: baseName(rc.sc, op.Arg), N: op.N})
 		}
 		return nil, err
+	case "signal":
+		// a signal sent to the process-compose binary itself
+		if simsignal.Deliver(syscall.Signal(op.N)) == 0 {
+			return nil, fmt.Errorf("harness: nobody listens for signal %d", op.N)
+		}
+		return nil, nil
 	case "shutdown":
 		return nil, p.ShutDownProject()
 	case "state":
